@@ -133,6 +133,7 @@ def main(pid, tier, seed, replay=None, jobs=None):
 
     # ---- aggregate
     obs = {}
+    aggs = []
     violations = []
     samples = []
     keys = set()
@@ -157,6 +158,8 @@ def main(pid, tier, seed, replay=None, jobs=None):
                 for e in v:
                     if e not in cur and len(cur) < 200:
                         cur.append(e)
+        if r.get("agg") is not None:
+            aggs.append((i, r["agg"]))
         if r.get("skip"):
             skipped[r["skip"]] = skipped.get(r["skip"], 0) + 1
         for k in r.get("keys") or ([r["key"]] if r.get("key") else []):
@@ -169,6 +172,14 @@ def main(pid, tier, seed, replay=None, jobs=None):
         for v in r.get("violations") or []:
             violations.append((i, v))
 
+    fin_reason, extra = None, {}
+    if hasattr(mod, "finalize"):
+        fin = mod.finalize(obs, tier, {"cases": ncases, "nontrivial": nontrivial_cases, "distinct": len(keys),
+                                       "skipped": skipped, "agg": aggs, "results": len(results)})
+        fin_reason, extra = fin[0], fin[1]
+        if len(fin) > 2:
+            for v in fin[2]:
+                violations.append((v.get("case_index", 0), v))
     known = load_known(pid)
     new_viol = []
     known_hits = {}
@@ -198,10 +209,6 @@ def main(pid, tier, seed, replay=None, jobs=None):
             replay_paths.append(path)
 
     wall = time.time() - t0
-    fin_reason, extra = None, {}
-    if hasattr(mod, "finalize"):
-        fin_reason, extra = mod.finalize(obs, tier, {"cases": ncases, "nontrivial": nontrivial_cases,
-                                                     "distinct": len(keys), "skipped": skipped})
     distinct = len(keys) if keys else nontrivial_cases
     if fin_reason:
         inconclusive.append(fin_reason)
